@@ -235,7 +235,7 @@ const WORDS: &[&str] = &[
 ];
 const ESCAPED: &[&str] = &[
     "\\ ", "\\:", "\\-", "\\+", "\\=", "\\(", "\\)", "\\[", "\\]", "\\{", "\\}", "\\\"", "\\*", "\\?", "\\\\", "\\/",
-    "\\a", "\\é", "\\!", "\\~", "\\^", "\\<", "\\>", "\\A", "\\U", "\\&", "\\\t",
+    "\\a", "\\é", "\\!", "\\~", "\\^", "\\<", "\\>", "\\A", "\\U", "\\&", "\\\t", "\\\u{3000}", "\\\u{a0}",
 ];
 const FIELDS: &[&str] = &[
     "f", "g", "host", "service", "@a", "@a.b", "@http.status_code", "tags", "_exists_", "_missing_", "_default_", "é", "k-1",
@@ -316,7 +316,7 @@ fn gen_range_value(rng: &mut Rng) -> String {
 }
 
 fn gen_range(rng: &mut Rng) -> String {
-    let mixed = rng.chance(1, 25);
+    let mixed = rng.chance(1, 6);
     let sq = rng.chance(2, 3);
     let (l, r) = if mixed { if sq { ("[", "}") } else { ("{", "]") } } else if sq { ("[", "]") } else { ("{", "}") };
     let sp = |rng: &mut Rng| if rng.chance(1, 8) { rng.pick(&["", "  ", "\t"]).to_string() } else { " ".to_string() };
